@@ -24,18 +24,28 @@ class Ref:
 
     @property
     def optimum(self):
+        """(minimum, list of all minimisers); above 5 elements the minimum comes from the subset DP and the list of
+        minimisers is not computed (empty)."""
         if self._opt is None:
-            self._opt = refmodel.ref_optimum(self.universe, self.table)
+            if len(self.universe) <= 5:
+                self._opt = refmodel.ref_optimum(self.universe, self.table)
+            else:
+                self._opt = (refmodel.dp_optimum(self.universe, self.table), [])
         return self._opt
 
 
 class Info:
     __slots__ = ('ds', 'lname', 'n', 'universe', 'labels', 's', 'sname', 'cfg', 'one', 'choices', 'status', 'value',
-                 'back', 'ref', 'mode', 'dataset', 'scheme')
+                 'back', 'ref', 'mode', 'dataset', 'scheme', 'reused', 'origin')
 
     def case(self, **extra):
         c = {'cfg': {'mode': self.mode}, 'dataset': self.ds, 'labels': self.lname, 'n': self.n, 'scheme': self.s,
              'config': self.cfg.name, 'one': self.one, 'schedule': self.choices}
+        if getattr(self, 'origin', None):
+            c['premutated_from'] = {'dataset': self.origin[0], 'removed': self.origin[1]}
+        if getattr(self, 'reused', None):
+            # the algorithm OBJECT had been used before: the previous inputs are part of the case
+            c['reused_after'] = self.reused
         c.update(extra)
         return c
 
@@ -54,6 +64,11 @@ SCHEME_KINDS = {
     'one': [spaces.UNIFYING],
     'one_b': [spaces.B3LTB4],
     'ext': [spaces.UNIFYING, spaces.PSEUDO],
+    'six_t': [spaces.UNIFYING, spaces.INDUCED_05, spaces.PSEUDO, spaces.B3LTB4, spaces.POSITIONAL, spaces.B5LTT5,
+              spaces.UNIFYING_TINY, spaces.INDUCED05_TINY],
+    'three_t': [spaces.UNIFYING, spaces.PSEUDO, spaces.B5LTT5, spaces.UNIFYING_TINY, spaces.INDUCED05_TINY],
+    'two_t': [spaces.UNIFYING, spaces.B3LTB4, spaces.UNIFYING_TINY],
+    'cycle': [spaces.UNIFYING, spaces.UNIFYING_P0375, spaces.INDUCED],
     'ext1': [spaces.UNIFYING],
 }
 
@@ -98,6 +113,42 @@ def ext43_datasets(sh, schemes):
 EXT7 = [(1, 1, 1), (2, 2, 2), (1, 1, 0), (2, 2, 0), (0, 1, 2), (1, 2, 1), (0, 0, 1)]
 
 
+def family7_datasets(sh):
+    """Two independent blocks side by side, 7 elements, 3 rankings: block A over {0,1,2,3}, block B over {4,5,6}, each
+    taken from a small catalogue of cyclic cores (rotations, one with a tie, one truncated), ranking i = A_i ++ B_i or
+    B_i ++ A_i.  Gives TWO components that cannot be all-tied, of sizes 4 and 3, in both orders - the smallest shape
+    where one component is delegated to the auxiliary algorithm and a later one is solved exactly (bound 3)."""
+    def rot(t, k):
+        return tuple(t[k:] + t[:k])
+    a = ((0,), (1,), (2,), (3,))
+    b = ((4,), (5,), (6,))
+    fam_a = [(rot(a, 0), rot(a, 1), rot(a, 2)), (rot(a, 0), rot(a, 2), rot(a, 3)),
+             (((0, 1), (2,), (3,)), rot(a, 1), rot(a, 2)), (rot(a, 0), rot(a, 1)[:3], rot(a, 2)),
+             (tuple(reversed(a)), rot(a, 1), rot(a, 3))]
+    fam_b = [(rot(b, 0), rot(b, 1), rot(b, 2)), (rot(b, 0), rot(b, 2), rot(b, 1)),
+             (((4, 5), (6,)), rot(b, 1), rot(b, 2)), (rot(b, 0), rot(b, 1)[:2], rot(b, 2))]
+    idx = 0
+    for ca in fam_a:
+        for cb in fam_b:
+            for order in (0, 1):
+                idx += 1
+                if idx % sh['nshards'] != sh['shard']:
+                    continue
+                yield idx, tuple((x + y) if order == 0 else (y + x) for x, y in zip(ca, cb))
+
+
+def premutated(it):
+    """for every dataset ds0 of the underlying space and every element x of its universe (>= 2 elements, and the
+    removal must leave a ranking): the marker ('premutated', ds0, x)."""
+    for index, ds0 in it:
+        uni = spaces.universe_of(ds0)
+        if len(uni) < 2:
+            continue
+        for x in uni:
+            if len(refmodel.remove_elements(ds0, {x})) > 0:
+                yield index, ('premutated', ds0, x)
+
+
 def run_block(ctx, sh, mode, configs, oracle, flags=(True, False), per_dataset=None, only=None, ds_filter=None):
     from .lib import mk_dataset, mk_scheme, labels_for, Back
     schemes = SCHEME_KINDS[sh.get('schemes', 'all')] if isinstance(sh.get('schemes', 'all'), str) else sh['schemes']
@@ -107,31 +158,83 @@ def run_block(ctx, sh, mode, configs, oracle, flags=(True, False), per_dataset=N
         it = [(0, only)]
     elif sh.get('space') == 'ext43':
         it = ext43_datasets(sh, schemes)
+    elif sh.get('space') == 'family7':
+        it = family7_datasets(sh)
     else:
         it = spaces.ds_iter_strided(n, sh['m'], sh['shard'], sh['nshards'])
+    # the reused-object pass runs on the small blocks (<= 2000 datasets) and on the DS(3,3)+x sub-space
+    if sh.get('premutate'):
+        it = premutated(it)
+    reuse = sh.get('reuse', sh.get('space') == 'ext43' or (n <= 5 and spaces.SWO_COUNT[n] ** sh['m'] <= 2000))
+    instances, history = {}, {}
     for index, ds in it:
         if ds_filter is not None and not ds_filter(ds):
             ctx.count('datasets_outside_the_filter')
             continue
+        origin = None
+        if isinstance(ds, tuple) and len(ds) == 3 and ds[0] == 'premutated':
+            # ('premutated', ds0, x): the input is the REAL object built from ds0, looked at, then mutated in place by
+            # remove_elements({x}); the reference dataset is the list-of-sets model of that removal
+            _, ds0, x = ds
+            origin = (ds0, x)
+            ds = refmodel.remove_elements(ds0, {x})
         universe = spaces.universe_of(ds)
         back = Back(labels, universe)
         ctx.cases += 1
+
+        def build_dataset(_ds=ds, _origin=origin):
+            if _origin is None:
+                return mk_dataset(_ds, labels)
+            from .lib import observe_dataset
+            d = mk_dataset(_origin[0], labels)
+            observe_dataset(d)
+            victim = [e for r in d.rankings for b in r.buckets for e in b if str(e.value) == str(labels[_origin[1]])]
+            d.remove_elements({victim[0]})
+            return d
         for s in schemes:
             ref = Ref(ds, universe, s)
             for cfg in configs:
                 for one in flags:
                     def on_start(prefix, _cfg=cfg, _one=one, _s=s):
                         harness.mark({'cfg': {'mode': mode}, 'dataset': ds, 'labels': lname, 'n': n, 'scheme': _s,
-                                      'config': _cfg.name, 'one': _one, 'schedule': prefix})
+                                      'config': _cfg.name, 'one': _one, 'schedule': prefix, 'premutated_from': origin})
                     for cs, status, value, dataset, scheme in algos.explore_config(
-                            cfg, lambda: (mk_dataset(ds, labels), mk_scheme(s)), one, on_start=on_start):
+                            cfg, lambda: (build_dataset(), mk_scheme(s)), one, on_start=on_start):
                         ctx.evals += 1
                         info = Info()
                         info.ds, info.lname, info.n, info.universe, info.labels = ds, lname, n, universe, labels
                         info.s, info.cfg, info.one, info.choices = s, cfg, one, cs
                         info.status, info.value, info.back, info.ref, info.mode = status, value, back, ref, mode
-                        info.dataset, info.scheme = dataset, scheme
+                        info.dataset, info.scheme, info.reused = dataset, scheme, None
+                        info.origin = origin
                         oracle(ctx, info)
+                    if reuse:
+                        # the same inputs once more on a long-lived algorithm object that has already served the
+                        # previous inputs of this shard (stale caches, remembered decisions, shared feature dicts)
+                        key = cfg.name
+                        if key not in instances:
+                            try:
+                                instances[key] = cfg.factory()
+                            except Exception:
+                                instances[key] = None
+                            history[key] = []
+                        if instances[key] is not None:
+                            dataset, scheme = build_dataset(), mk_scheme(s)
+                            prev = list(history[key][-2:])
+                            harness.mark({'cfg': {'mode': mode}, 'dataset': ds, 'labels': lname, 'n': n, 'scheme': s,
+                                          'config': cfg.name, 'one': one, 'schedule': [], 'reused_after': prev})
+                            status, value, trace = algos.run_config(cfg, dataset, scheme, one, None, alg=instances[key])
+                            ctx.evals += 1
+                            info = Info()
+                            info.ds, info.lname, info.n, info.universe, info.labels = ds, lname, n, universe, labels
+                            info.s, info.cfg, info.one, info.choices = s, cfg, one, [c for _, _, c in trace]
+                            info.status, info.value, info.back, info.ref, info.mode = status, value, back, ref, mode
+                            info.dataset, info.scheme = dataset, scheme
+                            info.reused = prev or [{'note': 'first use of this object'}]
+                            info.origin = origin
+                            oracle(ctx, info)
+                            history[key].append({'dataset': ds, 'scheme': s, 'one': one})
+                            ctx.count('executions_on_a_reused_algorithm_object')
         if per_dataset:
             per_dataset(ctx, ds)
 
@@ -146,12 +249,28 @@ def replay_case(ctx, c, oracle):
     universe = spaces.universe_of(ds)
     cfg = algos.config_by_name(c['config'], mode)
     dataset, scheme = mk_dataset(ds, labels), mk_scheme(s)
-    status, value, trace = algos.run_config(cfg, dataset, scheme, c['one'], list(c.get('schedule') or []))
+    origin = None
+    if c.get('premutated_from'):
+        from .lib import observe_dataset
+        origin = (tt(c['premutated_from']['dataset']), c['premutated_from']['removed'])
+        dataset = mk_dataset(origin[0], labels)
+        observe_dataset(dataset)
+        victim = [e for r in dataset.rankings for b in r.buckets for e in b if str(e.value) == str(labels[origin[1]])]
+        dataset.remove_elements({victim[0]})
+    alg = None
+    if c.get('reused_after'):
+        alg = cfg.factory()
+        for prev in c['reused_after']:
+            if 'dataset' in prev:
+                algos.run_config(cfg, mk_dataset(tt(prev['dataset']), labels), mk_scheme(scheme_of(prev['scheme'])),
+                                 prev['one'], None, alg=alg)
+    status, value, trace = algos.run_config(cfg, dataset, scheme, c['one'],
+                                            list(c.get('schedule') or []) if alg is None else None, alg=alg)
     info = Info()
     info.ds, info.lname, info.n, info.universe, info.labels = ds, c['labels'], c['n'], universe, labels
     info.s, info.cfg, info.one, info.choices = s, cfg, c['one'], [x for _, _, x in trace]
     info.status, info.value, info.back, info.ref, info.mode = status, value, Back(labels, universe), Ref(ds, universe, s), mode
-    info.dataset, info.scheme = dataset, scheme
+    info.dataset, info.scheme, info.reused, info.origin = dataset, scheme, c.get('reused_after'), origin
     ctx.evals += 1
     oracle(ctx, info)
 
@@ -166,6 +285,11 @@ def std_phases(blocks_by_mode):
             continue
         shards = []
         for b in blocks:
+            if b.get('space') == 'family7':
+                k = b.get('maxk', 16)
+                for x in range(k):
+                    shards.append(dict(b, n=7, m=3, shard=x, nshards=k, mode=mode))
+                continue
             if b.get('space') == 'ext43':
                 b = dict(b, n=3, m=3)     # striped over the DS(3,3) cores; the datasets have 4 elements
                 sh = ds_shards([b], per=b.get('per', 100), maxk=b.get('maxk', 64), mode=mode)
